@@ -5,8 +5,10 @@
 EXTENDS Consumer, Json, IOUtils, TLCExt
 
 Traces == JsonDeserialize(IOEnv.TRACE_FILE)
-VARIABLES tid, l, viol, drift
-tvars == <<s, ev, out, h, tid, l, viol, drift>>
+VARIABLES tid, l, viol, drift,
+          lost      \* the implementation did something the model cannot follow: from there on only the clauses stated over
+                    \* observable actions alone are evaluated, on the observed history
+tvars == <<s, ev, out, h, tid, l, viol, drift, lost>>
 
 Kind(o, k) == SelectSeq(o, LAMBDA a : a[1] = k)
 Calls(o) == SelectSeq(o, LAMBDA a : a[1] \in {"offsets", "ofetch", "fetch", "commit"})
@@ -44,9 +46,11 @@ Tagged(p, o, e, post, rec) ==
 Clauses ==
     << <<"C02.order", C02_order>>, <<"C02.no_gap", C02_no_gap>>, <<"C03.behind", C03_behind>>,
        <<"C13.start_once", C13_start_once>> >>
+ObsClauses ==
+    << <<"C02.order", C02_order>>, <<"C02.no_gap", C02_no_gap>>, <<"C03.behind", C03_behind_obs>> >>
 
 TInit ==
-    /\ tid \in DOMAIN Traces /\ l = 1 /\ viol = {} /\ drift = {}
+    /\ tid \in DOMAIN Traces /\ l = 1 /\ viol = {} /\ drift = {} /\ lost = FALSE
     /\ s = InitState /\ ev = Ev("Init", 0) /\ out = <<>> /\ h = InitHist
 
 TNext ==
@@ -54,11 +58,20 @@ TNext ==
     /\ LET tr == Traces[tid]
            rec == tr.steps[l]
            e == rec.e
-       IN IF e.a = "Unexecutable" \/ ~Possible(s, e)
-          THEN /\ viol' = viol \cup {<<"ENV.impossible", l>>}
+       IN IF e.a = "Unexecutable"
+          THEN /\ viol' = viol \cup (IF lost THEN {} ELSE {<<"ENV.impossible", l>>})
                /\ l' = Len(tr.steps) + 1
                /\ (IOEnv.TRACE_DEBUG = "1" => PrintT(<<"MISMATCH", tid, l, <<"impossible">>, s, h.procFailed>>))
-               /\ UNCHANGED <<s, ev, out, h, tid, drift>>
+               /\ UNCHANGED <<s, ev, out, h, tid, drift, lost>>
+          ELSE IF lost \/ ~Possible(s, e)
+          THEN \* observe-only: the model state is frozen, the history follows the recorded actions
+               LET o == rec.o.acts IN
+               /\ lost' = TRUE /\ s' = s /\ ev' = e /\ out' = o
+               /\ h' = UpdHist(h, s, e, [s |-> s, out |-> o])
+               /\ viol' = viol \cup (IF lost THEN {} ELSE {<<"ENV.impossible", l>>})
+                               \cup {<<ObsClauses'[i][1], l>> : i \in {j \in DOMAIN ObsClauses : ~ObsClauses'[j][2]}}
+               /\ (~lost /\ IOEnv.TRACE_DEBUG = "1" => PrintT(<<"MISMATCH", tid, l, <<"impossible">>, s, h.procFailed>>))
+               /\ drift' = drift /\ l' = l + 1 /\ tid' = tid
           ELSE LET r == Step(s, e)
                    o == rec.o.acts
                IN /\ s' = r.s /\ ev' = e /\ out' = o
@@ -69,7 +82,7 @@ TNext ==
                         \cup (IF rec.o.exc # "" THEN {<<"ENV.exception", l>>} ELSE {})
                   /\ drift' = drift
                   /\ (viol' # viol /\ IOEnv.TRACE_DEBUG = "1" => PrintT(<<"MISMATCH", tid, l, r.out, s, h'.procFailed>>))
-                  /\ l' = l + 1 /\ tid' = tid
+                  /\ l' = l + 1 /\ tid' = tid /\ lost' = lost
 
 TSpec == TInit /\ [][TNext]_tvars
 Report == l > Len(Traces[tid].steps) => PrintT(<<"RESULT", tid, l - 1, viol, drift>>)
